@@ -138,6 +138,10 @@ def run(ck: Check):
             ck.count("util")
 
     model = run_model(cases)
+
+    from coqlit import xcheck
+
+    xcheck(ck, cases, model)
     for c, m, i in zip(cases, model, impl):
         if m != i:
             ck.mismatch(c.split()[0], c, m, i)
